@@ -22,6 +22,7 @@ func init() {
 		Level: "model_checking",
 		Rule: "base programs with a mark at every position where the grammar permits a line break; every mark x 3 padding kinds (blank lines, one long comment line, mixed spaces/tabs/comment/blank lines) x sizes {0..8} U [1016,1032] U [2040,2056] U {3000,4095,4096,4097,5000,8192} U {2^k-1, 2^k, 2^k+1 : 16 KiB <= 2^k <= 128 KiB (thorough 1 MiB)} " +
 			"(thorough: every size 0..4200 at three positions, +-64 windows elsewhere) and all marks at once; 7 token kinds (string, raw string, embedded-string piece, comment, identifier, symbol, int) x the same lengths; " +
+			"whole programs of <=4 padding lines (comment, blank, spaces, indented comment, bare #) around nothing or around one statement at every position, with and without a line break after the last line; " +
 			"reader chunkings: constant chunk sizes {1,2,3,5,7,64,1023,1024,1025,2047,2048,2049} and every schedule with <=1 (thorough 2) short reads among the first 6 reads, on programs of 0.5-5 KiB; oracle: AST string equals the unpadded/unchunked parse with the token text intact; " +
 			"non-trivial = padding/length >= 1000 bytes or a chunked read; distinct = distinct (program, position, kind, size) / (program, schedule)",
 		Assumptions: []string{
@@ -54,8 +55,9 @@ type tcase struct {
 	Kind string `json:"kind"`
 	Size int    `json:"size"`
 	// chunk mode
-	Chunks []int `json:"chunks,omitempty"` // read sizes; after the list everything that is asked for
-	Const  int   `json:"const,omitempty"`
+	Src    string `json:"src,omitempty"`    // lines mode: the whole source
+	Chunks []int  `json:"chunks,omitempty"` // read sizes; after the list everything that is asked for
+	Const  int    `json:"const,omitempty"`
 }
 
 func padding(kind string, k int) string {
@@ -307,6 +309,35 @@ func gen(thorough bool, emit func(tcase)) {
 			emit(tcase{Mode: "token", Kind: tkd.name, Size: k})
 		}
 	}
+	// whole programs of padding lines (comments, blanks, indented comments) around nothing / around one statement,
+	// every sequence of <=4 lines, with and without a line break after the last line
+	lineKinds := []string{"#c", "", "  ", "\t# d", "#"}
+	for _, base := range []string{"", "1.p"} {
+		var rec func(lines []string)
+		rec = func(lines []string) {
+			if len(lines) > 0 {
+				for pos := 0; pos <= len(lines); pos++ {
+					if base == "" && pos > 0 {
+						break
+					}
+					all := append(append(append([]string{}, lines[:pos]...), base), lines[pos:]...)
+					if base == "" {
+						all = lines
+					}
+					src := strings.Join(all, "\n")
+					emit(tcase{Mode: "lines", Kind: base, Src: src})
+					emit(tcase{Mode: "lines", Kind: base, Src: src + "\n"})
+				}
+			}
+			if len(lines) == 4 {
+				return
+			}
+			for _, l := range lineKinds {
+				rec(append(append([]string{}, lines...), l))
+			}
+		}
+		rec(nil)
+	}
 	progs := chunkPrograms()
 	for pi := range progs {
 		for _, cs := range []int{1, 2, 3, 5, 7, 64, 1023, 1024, 1025, 2047, 2048, 2049} {
@@ -392,6 +423,23 @@ func check(c *core.Ctx, t tcase) {
 				return s
 			}
 			viol("token-length/"+t.Kind+"/"+bucket(t.Size), fmt.Sprintf("%s token of %d bytes", t.Kind, t.Size), trim(want), trim(got)+e, "")
+		}
+	case "lines":
+		// a program made of padding lines only / a statement surrounded by padding lines, with and without a final line break
+		want, e0 := parse(t.Kind)
+		if e0 != "" {
+			c.HarnessError("base %q does not parse: %s", t.Kind, e0)
+			return
+		}
+		c.Nontrivial(1)
+		got, e := parse(t.Src)
+		c.Outcome("lines:" + map[bool]string{true: "ok", false: "fail"}[e == "" && got == want])
+		if e != "" || got != want {
+			end := "terminated"
+			if !strings.HasSuffix(t.Src, "\n") {
+				end = "last-line-unterminated"
+			}
+			viol("padding-lines/"+end, fmt.Sprintf("%q (base %q)", t.Src, t.Kind), want, got+e, t.Src)
 		}
 	case "chunk":
 		src := chunkPrograms()[t.Base]
